@@ -10,8 +10,6 @@ Open Scope Z_scope.
 (* ---- table obligations (live interpreter / live reamber functions = the constants the model uses) ---- *)
 Theorem C01_tables_whitespace : Tables.c01.py_space = Text.py_space.
 Proof. vm_compute. reflexivity. Qed.
-Theorem C01_tables_colw : Tables.c01.colw = colw_table.
-Proof. vm_compute. reflexivity. Qed.
 (* exhaustive: OsuNoteMeta.x_axis_to_column(x, keys) for keys 1..18, x_lo <= x < x_hi equals the model *)
 Theorem C01_tables_xcol :
   map (fun k => map (fun x => x_to_col x k) (zrange Tables.c01.x_lo (Z.to_nat (Tables.c01.x_hi - Tables.c01.x_lo)))) keys_range
@@ -24,26 +22,26 @@ Theorem C01_tables_sampleset :
   Tables.c01.sampleset_names = sampleset_names /\ Tables.c01.sampleset_invalid = sampleset_from_string (t "nonsense").
 Proof. vm_compute. split; reflexivity. Qed.
 
-(* ---- column <-> x, every key count 1..18, EVERY integer x ---- *)
+(* ---- column <-> x: EVERY integer x; every key count (1..18 where a finite sweep is used) ---- *)
 Theorem C01_x_col_inverse : forall k c, 1 <= k <= 18 -> 0 <= c < k -> x_to_col (col_to_x c k) k = c.
 Proof. exact x_col_inverse. Qed.
 Theorem C01_col_to_x_in_range : forall k c, 1 <= k <= 18 -> 0 <= c < k -> in_column_range (col_to_x c k) c k.
 Proof. exact col_to_x_in_range. Qed.
 Theorem C01_col_to_x_centre : forall c k, 0 < k -> col_to_x c k = centre_of c k.
 Proof. exact col_to_x_centre. Qed.
-(* full statement "every x inside a column's range maps to that column" is false: *)
-Theorem C01_x_in_range_col_refuted :
-  exists k x c, 1 <= k <= 18 /\ 0 <= c < k /\ in_column_range x c k /\ x_to_col x k <> c.
-Proof. exact x_in_range_col_refuted. Qed.
-(* and holds for every integer x under the guard excluding that single point *)
-Theorem C01_x_in_range_col : forall k x c, 1 <= k <= 18 -> 0 <= c < k -> in_column_range x c k ->
-  ~ (k = 10 /\ x = 256) -> x_to_col x k = c.
-Proof. exact x_in_range_col. Qed.
-Theorem C01_x_to_col_exact : forall k x, 1 <= k <= 18 -> ~ (k = 10 /\ x = 256) -> x_to_col x k = column_of x k.
+(* the reader's column is the format's column clamp(floor(x*keys/512)), no exception *)
+Theorem C01_x_to_col_exact : forall k x, x_to_col x k = column_of x k.
 Proof. exact x_to_col_exact. Qed.
-Theorem C01_x_clamped : forall k x, 1 <= k <= 18 ->
+(* every x inside a column's range maps to that column *)
+Theorem C01_x_in_range_col : forall k x c, 0 <= c < k -> in_column_range x c k -> x_to_col x k = c.
+Proof. exact x_in_range_col. Qed.
+Theorem C01_x_clamped : forall k x, 1 <= k ->
   (x < 0 -> x_to_col x k = 0) /\ (512 <= x -> x_to_col x k = k - 1).
 Proof. exact x_clamped. Qed.
+(* historical: the variant before repo commit 36d1b4c (binary64 divisor 512/keys) failed at keys=10, x=256 *)
+Theorem C01_old_x_in_range_col_refuted :
+  exists k x c, 1 <= k <= 18 /\ 0 <= c < k /\ in_column_range x c k /\ OldColumn.x_to_col_old x k <> c.
+Proof. exact OldColumn.old_x_in_range_col_refuted. Qed.
 
 (* ---- value <-> code ---- *)
 Theorem C01_bpm_code_value_inverse : forall v : Q, ~ (v == 0)%Q -> (60000 / (60000 / v) == v)%Q.
@@ -64,13 +62,13 @@ Proof. exact write_hit_classified. Qed.
 Theorem C01_write_hold_classified : forall n k, sep_free (n_file n) ->
   is_hold (write_hold n k) = true /\ is_hit (write_hold n k) = false.
 Proof. exact write_hold_classified. Qed.
-Theorem C01_read_write_hit : forall n k, k <> 0 -> sep_free (n_file n) ->
+Theorem C01_read_write_hit : forall n k, sep_free (n_file n) ->
   exists m, read_hit (write_hit n k) k = Some m /\
     (n_off m == inject_Z (qtrunc (n_off n)))%Q /\ n_col m = x_to_col (col_to_x (n_col n) k) k /\
     n_hs m = n_hs n /\ n_ss m = n_ss n /\ n_as m = n_as n /\ n_cs m = n_cs n /\ n_vol m = n_vol n /\
     n_file m = n_file n.
 Proof. exact read_write_hit. Qed.
-Theorem C01_read_write_hold : forall n k, k <> 0 -> sep_free (n_file n) ->
+Theorem C01_read_write_hold : forall n k, sep_free (n_file n) ->
   exists m, read_hold (write_hold n k) k = Some m /\
     (n_off m == inject_Z (qtrunc (n_off n)))%Q /\
     (n_off m + n_len m == inject_Z (qtrunc (n_off n + n_len n)))%Q /\
@@ -94,33 +92,38 @@ Theorem C01_write_hold_generation : forall n m k,
   write_hold m k = write_hold n k.
 Proof. exact write_hold_generation. Qed.
 
-(* ---- metadata values: text after the FIRST colon ---- *)
-Theorem C01_meta_value_agrees : forall key v, ~ In COLON key -> ~ In COLON v ->
-  hd [] (split_on COLON (key ++ COLON :: v)) = key /\
-  nth_text (split_on COLON (key ++ COLON :: v)) 1 = Some v /\
+(* ---- metadata values: EVERYTHING after the FIRST colon (values may contain ':') ---- *)
+Theorem C01_meta_value_first_colon : forall key v, ~ In COLON key ->
+  hd [] (split_once COLON (key ++ COLON :: v)) = key /\
+  nth_text (split_once COLON (key ++ COLON :: v)) 1 = Some v /\
   cut_first COLON (key ++ COLON :: v) = Some (key, v).
-Proof. exact meta_value_agrees. Qed.
-Theorem C01_meta_value_truncated : forall key v1 v2, ~ In COLON key -> ~ In COLON v1 ->
+Proof. exact meta_value_first_colon. Qed.
+Theorem C01_meta_line_cut : forall line,
+  match cut_first COLON line with
+  | Some (k, v) => hd [] (split_once COLON line) = k /\ nth_text (split_once COLON line) 1 = Some v
+  | None => hd [] (split_once COLON line) = line /\ nth_text (split_once COLON line) 1 = None
+  end.
+Proof. exact meta_line_cut. Qed.
+(* historical: the parse before repo commit ac204a5 (line.split(":")) truncated at the second colon *)
+Theorem C01_old_meta_value_truncated : forall key v1 v2, ~ In COLON key -> ~ In COLON v1 ->
   nth_text (split_on COLON (key ++ COLON :: v1 ++ COLON :: v2)) 1 = Some v1 /\
   cut_first COLON (key ++ COLON :: v1 ++ COLON :: v2) = Some (key, v1 ++ COLON :: v2).
-Proof. exact meta_value_truncated. Qed.
-(* "Title:Re:Zero" is read as "Re": the reader does not return what the text denotes *)
-Theorem C01_meta_roundtrip_refuted :
+Proof. exact old_meta_value_truncated. Qed.
+(* the two former failing inputs are read as the format defines *)
+Theorem C01_colon_value_reads :
   wf_read_text colon_witness = true /\
   match osu_read colon_witness, osu_denote colon_witness with
-  | Some c, Some d => denotes 0 d c = false
-                      /\ meta_str (c_meta c) IX_TITLE = t "Re"
-                      /\ nth IX_TITLE (d_meta d) None = Some (MStr (t "Re:Zero"))
+  | Some c, Some d => denotes 0 d c = true /\ meta_str (c_meta c) IX_TITLE = t "Re:Zero"
   | _, _ => False
   end.
-Proof. exact meta_roundtrip_refuted. Qed.
-Theorem C01_read_column_refuted :
+Proof. exact colon_value_reads. Qed.
+Theorem C01_boundary_column_reads :
   wf_read_text xcol_witness = true /\
   match osu_read xcol_witness, osu_denote xcol_witness with
-  | Some c, Some d => denotes 0 d c = false /\ map n_col (c_hits c) = [4] /\ map n_col (d_hits d) = [5]
+  | Some c, Some d => denotes 0 d c = true /\ map n_col (c_hits c) = [5]
   | _, _ => False
   end.
-Proof. exact read_column_refuted. Qed.
+Proof. exact boundary_column_reads. Qed.
 
 (* ---- text library facts the codec theorems rest on ---- *)
 Theorem C01_int_codec : forall z, py_int (show_int z) = Some z.
